@@ -103,6 +103,13 @@ def run_case(c, stats):
     pre_q = [g.is_empty, g.get_generating_symbols, g.get_nullable_symbols, g.to_normal_form]
     for i in range(c.get("prefix", 0)):
         call(pre_q[(i + c["nv"]) % len(pre_q)])
+    if (c["nv"] + len(c["prods"])) % 5 == 3 and len(c["prods"]) >= 2:
+        # a bystander over the same variables and terminals (one production less) is queried first, in the same process
+        by = gcfg.build(dict(c, prods=c["prods"][1:]))
+        call(by.generate_epsilon)
+        for w in list(gcfg.words_over(terms, 2, foreign=False)):
+            call(by.contains, list(w))
+        stats.cls("bystander_first")
     call(g.generate_epsilon)
     total = 0
     for w in gcfg.words_over(terms, N, foreign=True):
